@@ -296,29 +296,7 @@ FAM_LATE = Family("late_hooks", "", "", "", gen_late, impl_late, lambda c, o: ""
                   nontrivial=lambda c, o: any(x[0] == "hook" for x in o["log"]), describe=lambda c: c["initial"])
 
 
-def run_oracle_only(ctx, fam, n):
-    """A family without a Coq model: corpus + n generated cases, oracle on each, shrinking of the first failure."""
-    from hsverif.family import load_corpus, shrink_case
-    cases = load_corpus(ctx.pid, fam.name) + [fam.gen(ctx.rng) for _ in range(n)]
-    fails, nontrivial = 0, 0
-    for c in cases:
-        try:
-            o = fam.impl(c)
-        except Exception as e:  # noqa: BLE001
-            ctx.violation("oracle", dict(family=fam.name, case=c, failure=dict(clause="implementation raised", error=f"{type(e).__name__}: {e}"[:300])))
-            fails += 1
-            continue
-        nontrivial += bool(fam.nontrivial(c, o))
-        fs = fam.oracle(c, o)
-        if fs:
-            fails += 1
-            if fails == 1:
-                d = dict(family=fam.name, case=c, obs=o, failure=fs[0])
-                small = shrink_case(fam, c, fs[0]["clause"])
-                if small != c:
-                    d["minimized_case"] = small
-                ctx.violation("oracle", d)
-    return dict(family=fam.name, cases=len(cases), nontrivial=nontrivial, oracle_failures=fails, model="none (oracle only)")
+from hsverif.family import run_oracle_only  # noqa: E402
 
 
 TRUSTED = [
